@@ -289,3 +289,27 @@ func mkfifo(p string) error {
 	os.Remove(p)
 	return syscall.Mkfifo(p, 0644)
 }
+
+// RealExitError returns a genuine *exec.ExitError for the given exit status (obtained once
+// from a real child process), so that code inspecting the error's dynamic type and
+// ExitCode() behaves exactly as with real commands. code < 0: killed by SIGKILL.
+var realErrs = map[int]error{}
+var realErrMu sync.Mutex
+
+func RealExitError(code int) error {
+	realErrMu.Lock()
+	defer realErrMu.Unlock()
+	if e, ok := realErrs[code]; ok {
+		return e
+	}
+	script := fmt.Sprintf("exit %d", code)
+	if code < 0 {
+		script = "kill -KILL $$"
+	}
+	_, err := exec.Command("bash", "-c", script).CombinedOutput()
+	if err == nil {
+		err = &ExitError{Code: code}
+	}
+	realErrs[code] = err
+	return err
+}
